@@ -41,7 +41,7 @@ PROPS = {
         "level": "other",
         "lean": ["PasfmtModel.Props.C03"],
         "streams": [
-            {"stream": "fmt", "families": "seeds_sample,grammar,layout,regions,mlsfam,marked,boundary,boundary", "quick": 3200, "thorough": 50000,
+            {"stream": "fmt", "families": "seeds_sample,grammar,layout,regions,mlsfam,marked,boundary,boundary,mlscancel", "quick": 3200, "thorough": 50000,
              "binding": ["prec", "out", "*"], "args": {"oracles": "c03"}},
         ],
         "oracle_prefixes": ["c03", "glue"],
